@@ -72,7 +72,7 @@ func (a Ary[LEN]) ReadFrom(r io.Reader) (n int64, err error) {
 	if array.Cap() < int(Len) {
 		array.Set(reflect.MakeSlice(array.Type(), int(Len), int(Len)))
 	} else {
-		array.Slice(0, int(Len))
+		array.SetLen(int(Len))
 	}
 	for i := 0; i < int(Len); i++ {
 		elem := array.Index(i)
